@@ -26,7 +26,7 @@ fn canon(t: &StructureTag) -> StructureTag {
 fn server(mut sock: UnixStream, behaviour: String, log: Arc<Mutex<Vec<String>>>, gone: Arc<std::sync::atomic::AtomicBool>) {
     struct Flag(Arc<std::sync::atomic::AtomicBool>); impl Drop for Flag { fn drop(&mut self) { self.0.store(true, std::sync::atomic::Ordering::SeqCst); } }
     let _flag = Flag(gone);
-    let _ = sock.set_read_timeout(Some(Duration::from_millis(1500)));
+    let _ = sock.set_read_timeout(Some(Duration::from_millis(6000)));
     let mut inbuf: Vec<u8> = vec![]; let mut buf = vec![0u8; 65536]; let mut count = 0usize;
     loop {
         let n = match sock.read(&mut buf) { Ok(0) | Err(_) => return, Ok(n) => n };
@@ -95,7 +95,8 @@ fn run_sync_side(sock: UnixStream, calls: &[(Mods, Op, u8)], closing: bool, gone
             Op::Search(b, sc, f, at) => { let attrs: Vec<String> = at.iter().map(|a| s(a)).collect();
                 if *streaming >= 1 { let started = if *streaming == 2 { conn.streaming_search_with(ldap3::adapters::EntriesOnly::new(), &s(b), scope_of(*sc), &s(f), attrs) } else { conn.streaming_search(&s(b), scope_of(*sc), &s(f), attrs) };
                     match started { Err(x) => e(x), Ok(mut es) => { let mut items = vec![]; let mut end = "none".to_string();
-                        loop { match es.next() { Ok(Some(re)) => items.push(item_name(re)), Ok(None) => break, Err(x) => { end = e(x); break; } } }
+                        // mode 3: a slow consumer - it pauses longer than the search's timeout before every next(); what the server has already sent must still be handed over
+                        loop { if *streaming == 3 { std::thread::sleep(Duration::from_millis(600)); } match es.next() { Ok(Some(re)) => items.push(item_name(re)), Ok(None) => break, Err(x) => { end = e(x); break; } } }
                         let lid = es.last_id(); let res = es.result(); format!("items={} end={} lastid={} {}", items.join("+"), end, lid, show_lr(&res)) } } }
                 else { conn.search(&s(b), scope_of(*sc), &s(f), attrs).map(|sr| format!("entries={} {}", entries(&sr.0), show_lr(&sr.1))).unwrap_or_else(e) } }
             Op::Add(d, avs) => conn.add(&s(d), avs.iter().map(|(a, vs)| (a.clone(), vs.iter().cloned().collect::<HashSet<_>>())).collect()).map(|r| show_lr(&r)).unwrap_or_else(e),
@@ -135,7 +136,7 @@ async fn run_async_side(sock: UnixStream, calls: &[(Mods, Op, u8)], closing: boo
             Op::Search(b, sc, f, at) => { let attrs: Vec<String> = at.iter().map(|a| s(a)).collect();
                 if *streaming >= 1 { let started = if *streaming == 2 { ldap.streaming_search_with(ldap3::adapters::EntriesOnly::new(), &s(b), scope_of(*sc), &s(f), attrs).await } else { ldap.streaming_search(&s(b), scope_of(*sc), &s(f), attrs).await };
                     match started { Err(x) => e(x), Ok(mut es) => { let mut items = vec![]; let mut end = "none".to_string();
-                        loop { match es.next().await { Ok(Some(re)) => items.push(item_name(re)), Ok(None) => break, Err(x) => { end = e(x); break; } } }
+                        loop { if *streaming == 3 { tokio::time::sleep(Duration::from_millis(600)).await; } match es.next().await { Ok(Some(re)) => items.push(item_name(re)), Ok(None) => break, Err(x) => { end = e(x); break; } } }
                         let lid = es.ldap_handle().last_id(); let res = es.finish().await; format!("items={} end={} lastid={} {}", items.join("+"), end, lid, show_lr(&res)) } } }
                 else { ldap.search(&s(b), scope_of(*sc), &s(f), attrs).await.map(|sr| format!("entries={} {}", entries(&sr.0), show_lr(&sr.1))).unwrap_or_else(e) } }
             Op::Add(d, avs) => ldap.add(&s(d), avs.iter().map(|(a, vs)| (a.clone(), vs.iter().cloned().collect::<HashSet<_>>())).collect()).await.map(|r| show_lr(&r)).unwrap_or_else(e),
@@ -176,7 +177,7 @@ pub fn gen(rng: &mut Rng, n: usize, out: &mut Vec<String>) {
 pub fn run(args: &[&str]) -> (String, Option<String>) {
     let behaviour = args[0].to_string();
     // "Ssearch/.." = streaming_search, "Asearch/.." = streaming_search_with(EntriesOnly), "search/.." = search()
-    let calls: Vec<(Mods, Op, u8)> = args[1..].chunks(2).map(|c| { let (st, o) = if c[1].starts_with("Ssearch/") { (1u8, &c[1][1..]) } else if c[1].starts_with("Asearch/") { (2u8, &c[1][1..]) } else { (0u8, c[1]) }; (parse_mods(c[0]), parse_op(o), st) }).collect();
+    let calls: Vec<(Mods, Op, u8)> = args[1..].chunks(2).map(|c| { let (st, o) = if c[1].starts_with("Ssearch/") { (1u8, &c[1][1..]) } else if c[1].starts_with("Asearch/") { (2u8, &c[1][1..]) } else if c[1].starts_with("Zsearch/") { (3u8, &c[1][1..]) } else { (0u8, c[1]) }; (parse_mods(c[0]), parse_op(o), st) }).collect();
     let run_one = |sync_side: bool| -> Option<(Vec<String>, Vec<String>)> {
         let (a, b) = UnixStream::pair().ok()?;
         let log = Arc::new(Mutex::new(vec![])); let l2 = log.clone(); let bh = behaviour.clone();
